@@ -136,6 +136,7 @@ type fedEnv struct {
 
 type pendingEl struct {
 	key     string
+	short   string
 	claimed bool
 }
 
@@ -255,6 +256,17 @@ func (e *fedEnv) tagOf(ctx *planner.PlanningContext) string {
 			break
 		}
 	}
+	if idx < 0 {
+		// the gateway may have completed the variables (defaults): match on text and name only
+		short := elKey(ctx.Request.Query, ctx.Request.OperationName, nil)
+		for i := range els {
+			if !els[i].claimed && els[i].short == short {
+				els[i].claimed = true
+				idx = i
+				break
+			}
+		}
+	}
 	tag := fmt.Sprintf("%s#%d", client, idx)
 	if idx < 0 {
 		tag = fmt.Sprintf("%s#?%d", client, len(e.reqTags))
@@ -361,6 +373,7 @@ func (e *fedEnv) post(client string, els []clientReq, batch bool) *clientResp {
 		if vars == nil {
 			pe[i].key = elKey(el.Query, el.OperationName, map[string]interface{}{})
 		}
+		pe[i].short = elKey(el.Query, el.OperationName, nil)
 	}
 	e.pending[client] = pe
 	return e.postRaw(client, body, "application/json")
